@@ -149,8 +149,10 @@ func (v *Version) UnmarshalText(text []byte) error {
 
 // UnmarshalFlag implements the flags.Unmarshaler interface.
 func (v *Version) UnmarshalFlag(in string) error {
-	if strings.HasPrefix(in, ">=") {
-		v.IsGTE = true
+	// N.B. This gets called again on the same value for every config file that sets it, so it
+	//      must not leave anything behind from a previous call.
+	v.IsGTE = strings.HasPrefix(in, ">=")
+	if v.IsGTE {
 		in = strings.TrimSpace(strings.TrimPrefix(in, ">="))
 	}
 	v.IsSet = true
